@@ -119,6 +119,10 @@ def _records(base):
         out.append(("HETATM", "ZN", "ZN", "A", 3, 20.0, 0.0, 0.0, 2))
         out.append(("HETATM", "O", "HOH", "A", 4, 8.0, 8.0, 8.0, 3))
         out.append(("HETATM", "O", "WAT", "A", 5, 9.0, 18.0, 8.0, 4))
+        # a ligand of several atoms (partial disorder is edited onto it)
+        for n, x, y, z in (("C1", 30.0, 0.0, 0.0), ("O1", 31.4, 0.2, 0.1),
+                           ("C2", 29.2, 1.3, 0.2), ("O2", 29.9, 2.5, 0.3)):
+            out.append(("HETATM", n, "GOL", "A", 6, x, y, z, 5))
     return out
 
 
@@ -152,6 +156,12 @@ def base_lines(base, flags, shift=0.0, serial0=1):
 
 HEADER = ["HEADER    TEST MOLECULE                           01-JAN-00   XXXX"]
 MODEL_LAYOUTS = ("none", "m1", "m1m2", "nom1m2", "m1m2m3")
+# model serial numbers need not start at 1 or ascend (ensemble subsets), and
+# writers differ in how they pad the record: "first model" means first in
+# the file.  Used with the pristine bases only.
+NUMBERED_LAYOUTS = {"m3m4": (3, 4), "m2m1": (2, 1), "m0m1m2": (0, 1, 2),
+                    "m1m1": (1, 1), "m1m2:unpadded": (1, 2),
+                    "m5:unpadded": (5,)}
 
 
 def build_lines(base, layout, flags):
@@ -167,6 +177,13 @@ def build_lines(base, layout, flags):
     elif layout == "nom1m2":
         lines += first + ["ENDMDL", "MODEL        2"]
         lines += base_lines(base, flags, shift=0.25) + ["ENDMDL", "END"]
+    elif layout in NUMBERED_LAYOUTS:
+        for k, num in enumerate(NUMBERED_LAYOUTS[layout]):
+            rec = (f"MODEL {num}" if layout.endswith(":unpadded")
+                   else f"MODEL     {num:>4}")
+            lines += [rec] + base_lines(base, flags, shift=0.25 * k)
+            lines += ["ENDMDL"]
+        lines += ["END"]
     elif layout == "m1m2m3":
         lines += ["MODEL        1"] + first + ["ENDMDL", "MODEL        2"]
         lines += base_lines(base, flags, shift=0.25) + ["ENDMDL"]
@@ -199,7 +216,8 @@ INSERTS = {
               "  0.00          CL",
 }
 LINE_MODS = ("alias", "crlf", "trail", "cut54", "cut60", "cut66", "cut78",
-             "alt_after", "alt_end", "hetflip", "serial5")
+             "alt_after", "alt_end", "alt_cd", "alt_only_b", "hetflip",
+             "serial5")
 RES_MODS = ("neg", "big", "icode", "icode_split", "icode_collide")
 
 
@@ -325,12 +343,16 @@ def apply_program(lines, program):
             lines[pos] = l + " " * 12
         elif what.startswith("cut"):
             lines[pos] = l[: int(what[3:])]
-        elif what in ("alt_after", "alt_end"):
-            first = l[:16] + "A" + l[17:]
+        elif what == "alt_only_b":
+            # an atom that exists in the second conformer only
+            lines[pos] = l[:16] + "B" + l[17:]
+        elif what in ("alt_after", "alt_end", "alt_cd"):
+            la, lb = ("C", "D") if what == "alt_cd" else ("A", "B")
+            first = l[:16] + la + l[17:]
             x = float(l[30:38]) + 0.111
-            second = l[:16] + "B" + l[17:30] + f"{x:8.3f}" + l[38:]
+            second = l[:16] + lb + l[17:30] + f"{x:8.3f}" + l[38:]
             lines[pos] = first
-            if what == "alt_after":
+            if what in ("alt_after", "alt_cd"):
                 after.setdefault(pos, []).append(second)
             else:
                 key = (l[21], l[22:27])
@@ -601,7 +623,11 @@ def run_case(case):
             case["drop_water"])
         return res
     edits = single_edits(lines)
-    if mode == "singles_direct":
+    if mode == "pristine":
+        for driver in ("direct", "clean"):
+            for dw in (False, True):
+                one([], driver, dw)
+    elif mode == "singles_direct":
         for prog in [[]] + [[e] for e in edits]:
             for dw in (False, True):
                 one(prog, "direct", dw)
@@ -641,11 +667,18 @@ def variants():
     return out
 
 
+def numbered_variants():
+    return [[base, layout, []] for base in ("A", "C", "D")
+            for layout in NUMBERED_LAYOUTS]
+
+
 def enumerate_cases(tier, seed):
     cases = []
     vs = variants()
     for v in vs:
         cases.append({"mode": "singles_direct", "variant": v})
+    for v in numbered_variants():
+        cases.append({"mode": "pristine", "variant": v})
     if tier == "quick":
         clean_variants = [["A", "none", []], ["A", "m1m2", []]]
         pair_variants = [["A", "none", []], ["A", "m1m2", []]]
